@@ -58,60 +58,3 @@ Theorem C06_api_roundtrip : forall sgn cs a h d, R cs a -> heap_get (st_heap cs)
   outp r = OutStatus ST_OK (Some (st_next cs)) None /\ heap_get (st_heap (stp r)) (st_next cs) = Some d.
 Proof. exact load_store_api. Qed.
 Print Assumptions C06_api_roundtrip.
-
-(* ---- the tie to the code: storage.c as TRANSLATED from /repo's current source on this run (Gen/CFuns.v:
-   pointer walks resolved to constant offsets, store16/load16 inlined, memcpy/memcmp expanded) *)
-Theorem C06_code_tie_store : forall d st0, Canon d -> d_checksum d < 2048 ->
-  CFuns.polyseed_data_store (Z.of_N (d_birthday d)) (Z.of_N (d_features d)) (map Z.of_N (d_secret d))
-    (Z.of_N (d_checksum d)) st0 = map Z.of_N (data_store d).
-Proof. exact tie_data_store. Qed.
-Print Assumptions C06_code_tie_store.
-
-(* for EVERY 32-byte buffer and whatever the struct held before: FORMAT exactly when the mirror says so,
-   otherwise the same struct with every field written *)
-Theorem C06_code_tie_load : forall buf b0 f0 sec0 c0, length buf = 32%nat -> bytes_ok buf ->
-  match data_load buf with
-  | LoadFormat => snd (CFuns.polyseed_data_load (map Z.of_N buf) b0 f0 sec0 c0) = Z.of_N ST_FORMAT
-  | LoadOk d => CFuns.polyseed_data_load (map Z.of_N buf) b0 f0 sec0 c0 =
-                (Z.of_N (d_birthday d), Z.of_N (d_features d), map Z.of_N (d_secret d), Z.of_N (d_checksum d), Z.of_N ST_OK)
-  end.
-Proof. exact tie_data_load. Qed.
-Print Assumptions C06_code_tie_load.
-
-(* ---- the tie to the code: src/polyseed.c as TRANSLATED on this run (Gen/CApi.v) ---- *)
-From Coq Require Import String.
-From PS Require Import Base GFDefs PackDefs StoreDefs MiscDefs StrDefs LangDefs ApiDefs GFProofs PackProofs StoreProofs CTieBase CTieLang CTiePhrase CTiePhraseEv CTieSplit CTieApi CTieDecode CTieEncode.
-From PS.Gen Require Import Consts PrivConsts Langs.
-From PS.Gen Require CFuns.
-From PS.Gen Require CApi.
-
-(* polyseed_load as translated against the mirror step: status, block, *seed_out, events - for every 32-byte buffer and either allocation outcome *)
-Theorem C06_code_tie_api_load :
-  forall (sgn : bool) (langs : list lang) (st : state) (buf : list N) (ok : bool) 
-           (gb gf : Z) (gs : list Z) (gc so0 : Z),
-         Datatypes.length buf = 32%nat ->
-         bytes_ok buf ->
-         let
-         '(st', out0, evs) := step sgn langs st (OpLoad buf ok) in
-          exists (cevs : list CApi.cev) (b f : Z) (s : list Z) (c so status : Z),
-            CApi.polyseed_load (alloc_ptr st ok) CFuns.polyseed_mul2_table (Z.of_N (st_reserved st))
-              (map Z.of_N buf) gb gf gs gc so0 = (cevs, b, f, s, c, so, status) /\
-            evs_of (st_deps st) cevs = evs /\
-            out0 = OutStatus (Z.to_N status) (if (status =? 0)%Z then Some (st_next st) else None) None /\
-            (if (status =? 0)%Z
-             then
-              so = ptr (st_next st) /\
-              (exists d : data, st_heap st' = (st_next st, d) :: st_heap st /\ (b, f, s, c) = zd d)
-             else so = so0 /\ st_heap st' = st_heap st).
-Proof. exact @tie_load. Qed.
-Print Assumptions C06_code_tie_api_load.
-
-(* polyseed_store as translated = the storage layout, for every canonical struct *)
-Theorem C06_code_tie_api_store :
-  forall (d : data) (st0 : list Z),
-         Canon d ->
-         d_checksum d < 2048 ->
-         CApi.polyseed_store (Z.of_N (d_birthday d)) (Z.of_N (d_features d)) (map Z.of_N (d_secret d))
-           (Z.of_N (d_checksum d)) st0 = map Z.of_N (data_store d).
-Proof. exact @tie_store. Qed.
-Print Assumptions C06_code_tie_api_store.
